@@ -330,12 +330,34 @@ theorem runs_strset {env : Env} {code : List Instr} {c : Ctx} {l : LEnv} {pure :
     (by intro p hp pc st mem its; simp only [List.mem_map] at hp; obtain ⟨n, _, rfl⟩ := hp; rfl)
   simpa [List.map_map, Function.comp_def] using this
 
+/-- the word OP_PUSH_RULE pushes: UNDEFINED for a disabled rule -/
+def ruleWord (env : Env) (k : Nat) : Int := if env.disabled.contains k then UNDEF else b2i (env.rules.getD k false)
+
+theorem ruleWord_or (env : Env) (prim : String → List Int → Int) (k : Nat) :
+    vmBin prim .OP_OR (ruleWord env k) 0 = b2i (env.ruleMatched k) := by
+  unfold ruleWord Env.ruleMatched
+  by_cases hd : env.disabled.contains k = true
+  · simp only [hd, if_true, Bool.not_true, Bool.and_false]
+    rfl
+  · have hd' : env.disabled.contains k = false := by simpa using hd
+    simp only [hd', Bool.false_eq_true, if_false, Bool.not_false, Bool.and_true]
+    cases env.rules.getD k false <;> rfl
+
+/-- a rule-set member `PUSH_RULE k; PUSH 0; OR` leaves 0/1: the rule matched (a disabled rule: 0, never the end-of-set marker) -/
+theorem runs_ruleMember {env : Env} {code : List Instr} {c : Ctx} {l : LEnv} {pure : Bool} (k : Nat) :
+    Runs env code (ruleMember k) c l pure [b2i (env.ruleMatched k)] := by
+  have h1 : Runs env code [Instr.pushRule k] c l pure [ruleWord env k] := Runs.push1 _ _ (fun _ _ _ _ _ => rfl)
+  have h2 : Runs env code [Instr.push 0] c l pure [0] := Runs.push1 _ _ (fun _ _ _ _ _ => rfl)
+  have := Runs.op (.bin .OP_OR) _ _ (Runs.seq h1 h2) (fun _ _ _ _ => rfl)
+  exact Runs.val1 (ruleWord_or env _ k) (by simpa [ruleMember] using this)
+
 theorem runs_ruleset {env : Env} {code : List Instr} {c : Ctx} {l : LEnv} {pure : Bool} (set : List Nat) :
-    Runs env code (set.map fun k => Instr.pushRule k) c l pure (set.map fun k => b2i (env.rules.getD k false)).reverse := by
-  have := runs_pushes (env := env) (code := code) (c := c) (l := l) (pure := pure)
-    (set.map fun k => (Instr.pushRule k, b2i (env.rules.getD k false)))
-    (by intro p hp pc st mem its; simp only [List.mem_map] at hp; obtain ⟨n, _, rfl⟩ := hp; rfl)
-  simpa [List.map_map, Function.comp_def] using this
+    Runs env code (set.flatMap ruleMember) c l pure (set.map fun k => b2i (env.ruleMatched k)).reverse := by
+  induction set with
+  | nil => exact Runs.nil env code c l pure
+  | cons k ks ih =>
+    have := Runs.seq (runs_ruleMember (env := env) (code := code) (c := c) (l := l) (pure := pure) k) ih
+    simpa using this
 
 theorem count_strset (env : Env) (set : List Nat) (p : List (Int × Int) → Bool) :
     (set.map encStr).countP (fun sv => p (matchesOfStr env sv)) = set.countP (fun n => p (env.strs.getD n [])) := by
@@ -345,13 +367,12 @@ theorem count_strset (env : Env) (set : List Nat) (p : List (Int × Int) → Boo
   simp [ms_enc]
 
 theorem count_ruleset (env : Env) (set : List Nat) :
-    (set.map fun k => b2i (env.rules.getD k false)).countP (fun v => v != 0) = set.countP (fun k => env.rules.getD k false) := by
+    (set.map fun k => b2i (env.ruleMatched k)).countP (fun v => v != 0) = set.countP env.ruleMatched := by
   rw [List.countP_map]
   congr 1
   funext k
-  simp only [List.getD_eq_getElem?_getD, Function.comp]
-  generalize env.rules[k]?.getD false = r
-  cases r <;> simp [b2i]
+  simp only [Function.comp]
+  cases env.ruleMatched k <;> simp [b2i]
 
 /-- `a or b`: the word left is OP_OR's 0/1, or the left operand's own (true) word -/
 theorem or_runsV {env : Env} {code : List Instr} {c : Ctx} {l : LEnv} {pure : Bool} {a b : Expr} {wa wb : Int}
@@ -412,8 +433,10 @@ theorem exec_loopfree (env : Env) (henv : EnvOk env) (code : List Instr) :
     exact Runs.push1 _ _ (fun _ _ _ _ _ => rfl)
   | .ruleRef k, c, l, _, _ => by
     apply RunsV.ofExact
-    simp only [compile, eval, toVm]
-    exact Runs.push1 _ _ (fun _ _ _ _ _ => rfl)
+    simp only [compile, eval]
+    refine Runs.val1 ?_ (Runs.push1 (.pushRule k) (ruleWord env k) (fun _ _ _ _ _ => rfl))
+    unfold ruleWord
+    split <;> rfl
   | .neg e, c, l, hl, hw => by
     apply RunsV.ofExact
     simp only [WF] at hw
@@ -652,12 +675,12 @@ theorem exec_loopfree (env : Env) (henv : EnvOk env) (code : List Instr) :
     have hm : Runs env code [Instr.pushU] c l true [UNDEF] := Runs.push1 _ _ (fun _ _ _ _ _ => rfl)
     have hs := runs_ruleset (env := env) (code := code) (c := c) (l := l) (pure := true) set
     have hcode : compile c (.ofRules q qe set) =
-        ((quantCode (compile c qe) q ++ [Instr.pushU]) ++ set.map fun k => Instr.pushRule k) ++ [.of_ true] := by
+        ((quantCode (compile c qe) q ++ [Instr.pushU]) ++ set.flatMap ruleMember) ++ [.of_ true] := by
       simp [compile]
     rw [hcode]
     simp only [eval]
     have hrun := Runs.op (.of_ true) _ _ (Runs.seq (Runs.seq hq hm) hs)
-      (step_of env true (set.map fun k => b2i (env.rules.getD k false))
+      (step_of env true (set.map fun k => b2i (env.ruleMatched k))
         (by intro y hy; simp only [List.mem_map] at hy; obtain ⟨n, _, rfl⟩ := hy; exact isUndef_b2i _) _)
     refine Runs.val1 ?_ hrun
     simp only [if_true, List.length_map]
@@ -748,12 +771,12 @@ theorem exec_loopfree (env : Env) (henv : EnvOk env) (code : List Instr) :
     have hm : Runs env code [Instr.pushU] c l true [UNDEF] := Runs.push1 _ _ (fun _ _ _ _ _ => rfl)
     have hs := runs_ruleset (env := env) (code := code) (c := c) (l := l) (pure := true) set
     have hcode : compile c (.pctRules p set) =
-        ((compile c p ++ [Instr.pushU]) ++ set.map fun k => Instr.pushRule k) ++ [.ofPercent true] := by
+        ((compile c p ++ [Instr.pushU]) ++ set.flatMap ruleMember) ++ [.ofPercent true] := by
       simp [compile]
     rw [hcode]
     simp only [eval]
     have hrun := Runs.op (.ofPercent true) _ _ (Runs.seq (Runs.seq hq hm) hs)
-      (step_ofPercent env true (set.map fun k => b2i (env.rules.getD k false))
+      (step_ofPercent env true (set.map fun k => b2i (env.ruleMatched k))
         (by intro y hy; simp only [List.mem_map] at hy; obtain ⟨n, _, rfl⟩ := hy; exact isUndef_b2i _) _)
     refine Runs.val1 ?_ hrun
     simp only [if_true, List.length_map]
